@@ -49,6 +49,10 @@ def impl_oracle(c):
     if op == "tojson" and c.get("reject") and o.get("ok"):
         return "accepted-invalid", "accepted %s, which has no value in the documented syntax; emitted %s" % (
             c.get("src"), o.get("text"))
+    if op in ("tojson", "unmarshal", "series") and c.get("order"):
+        bad = J.order_oracle(c)
+        if bad:
+            return bad
     if op in ("tojson", "unmarshal") and o.get("ok"):
         if o.get("valid") is False:
             return "invalid-json", "accepted, but the emitted text %s is not valid JSON" % o.get("text")
